@@ -140,7 +140,7 @@ Fixpoint codes_from {A} (chk : A -> Z) (i : Z) (l : list A) : list Z :=
   match l with
   | [] => []
   | x :: r => let c := chk x in
-              if c =? 0 then codes_from chk (i + 1) r else (8 * i + c) :: codes_from chk (i + 1) r
+              if c =? 0 then codes_from chk (i + 1) r else (16 * i + c) :: codes_from chk (i + 1) r
   end.
 
 Definition codes {A} (chk : A -> Z) (l : list A) : list Z := codes_from chk 0 l.
